@@ -152,6 +152,28 @@ Definition model_literal_keys (bytes : list byte) (cfg : config) : list N :=
   | _ => []
   end.
 
+(* C05, syntactic form (the hypothesis of pipeline_storage_free_empty, read off the BYTES by the specification's own token
+   walk, independent of the opcode table of the implementation): no SLOAD (0x54) and no SSTORE (0x55) at an instruction
+   position, yet a non-empty layout -> 70 *)
+Fixpoint has_storage_opcode (fuel : nat) (bs : list byte) : bool :=
+  match fuel with
+  | O => false
+  | S f =>
+      match bs with
+      | [] => false
+      | b :: rest =>
+          if (0x60 <=? b) && (b <=? 0x7f) then has_storage_opcode f (skipn (N.to_nat (b - 0x5f)) rest)
+          else if (b =? 0x54) || (b =? 0x55) then true
+          else has_storage_opcode f rest
+      end
+  end.
+
+Definition c05_syntactic_code (bytes : list byte) (c : c056case) : N :=
+  match xa_class (s_res c) with
+  | 0 => if negb (has_storage_opcode (S (length bytes)) bytes) then (match xa_layout (s_res c) with [] => 0 | _ => 70 end) else 0
+  | _ => 0
+  end.
+
 Definition model_states (bytes : list byte) (cfg : config) : option (list vstate) :=
   match try_from bytes with
   | Ok code => match model_run code cfg with RDone m => Some (map fst (v_stored m)) | _ => None end
@@ -162,7 +184,7 @@ Definition model_states (bytes : list byte) (cfg : config) : option (list vstate
    is read off the model's retired states, not off the implementation's (a change that makes the implementation
    execute dead code, or invent accesses, is then seen as a phantom slot).  0 when the model's run does not finish. *)
 Definition c05m_code (bytes : list byte) (cfg : config) (c : c056case) : N :=
-  match c05_code c with
+  match (match c05_code c with 0 => c05_syntactic_code bytes c | n => n end) with
   | 0 =>
       match xa_class (s_res c), model_states bytes cfg with
       | 0, Some sts =>
